@@ -139,35 +139,74 @@ let rec canon_val (v : val0) : val0 =
 
 let req_of = function "default" -> RDefault | "required" -> RRequired | "optional" -> ROptional | _ -> failwith "req"
 
-type uni = { env : senv; names : (string, int) Hashtbl.t; fnames : string list array }
+type uni = { env : senv; names : (string, int) Hashtbl.t; fnames : string list array;
+             gu : gostruct list; intended : senv; valid : bool Lazy.t array; invalid : string list }
+
+let str_of_string (s : string) : n list = List.init (String.length s) (fun i -> byte_tab.(Char.code s.[i]))
+let string_of_str (l : n list) : string = String.concat "" (List.map (fun x -> String.make 1 (Char.chr (int_of_n x land 255))) l)
+
+let rec gotype_of_sx = function
+  | A "bool" -> GBool | A "int" -> GInt | A "int8" -> GInt8 | A "int16" -> GInt16 | A "int32" -> GInt32
+  | L [A "int64"; A "-"] -> GInt64 [] | L [A "int64"; A nm] -> GInt64 (str_of_string nm)
+  | A "float64" -> GFloat64 | A "string" -> GString | A "uint8" -> GUint8
+  | L [A "slice"; e] -> GSlice (gotype_of_sx e)
+  | L [A "map"; k; v] -> GMap (gotype_of_sx k, gotype_of_sx v)
+  | L [A "ptr"; t] -> GPtr (gotype_of_sx t)
+  | L [A "struct"; A sid; A nm] -> GStruct (n_of_string sid, if nm = "-" then [] else str_of_string nm)
+  | L [A "unsup"; A k] -> GUnsup (n_of_string k)
+  | _ -> failwith "bad gotype"
 
 let load_universe (file : string) : uni =
   let ic = open_in_bin file in
   let s = really_input_string ic (in_channel_length ic) in
   close_in ic;
-  match parse_sx s with
-  | [L (A "env" :: sds)] ->
-      let names = Hashtbl.create 64 in
-      let fnames = Array.make (List.length sds) [] in
-      let env = List.mapi (fun i sd ->
-        match sd with
-        | L (A "sd" :: A name :: A holder :: init :: fs) ->
-            Hashtbl.replace names name i;
-            let sinit = match init with
+  let names = Hashtbl.create 64 in
+  let items = parse_sx s in
+  let envx = List.find (function L (A "env" :: _) -> true | _ -> false) items in
+  let gux = List.find (function L (A "gouniverse" :: _) -> true | _ -> false) items in
+  let sds = match envx with L (_ :: l) -> l | _ -> [] in
+  let fnames = Array.make (List.length sds) [] in
+  let intended = List.mapi (fun i sd ->
+    match sd with
+    | L (A "sd" :: A name :: A holder :: init :: fs) ->
+        Hashtbl.replace names name i;
+        let sinit = match init with
+          | A "noinit" -> None
+          | L (A "init" :: asg) ->
+              Some (List.map (function L [A i; v] -> (nat_of_int (int_of_string i), val_of_sx v) | _ -> failwith "asg") asg)
+          | _ -> failwith "init" in
+        let fields = List.map (function
+          | L [A "f"; A id; t; A r; A nc; d; A fname] ->
+              fnames.(i) <- fnames.(i) @ [fname];
+              { fid = n_of_string id; fty = ty_of_sx t; freq = req_of r; fnocopy = (nc = "1");
+                fdflt = (match d with A "nodflt" -> None | v -> Some (val_of_sx v)) }
+          | _ -> failwith "field") fs in
+        { sfields = fields; sholder = (holder = "1"); sinit }
+    | _ -> failwith "sd") sds in
+  let gu = match gux with
+    | L (_ :: l) -> List.map (function
+        | L (A "gs" :: A name :: init :: fs) ->
+            let gs_init = match init with
               | A "noinit" -> None
               | L (A "init" :: asg) ->
                   Some (List.map (function L [A i; v] -> (nat_of_int (int_of_string i), val_of_sx v) | _ -> failwith "asg") asg)
-              | _ -> failwith "init" in
-            let fields = List.map (function
-              | L [A "f"; A id; t; A r; A nc; d; A fname] ->
-                  fnames.(i) <- fnames.(i) @ [fname];
-                  { fid = n_of_string id; fty = ty_of_sx t; freq = req_of r; fnocopy = (nc = "1");
-                    fdflt = (match d with A "nodflt" -> None | v -> Some (val_of_sx v)) }
-              | _ -> failwith "field") fs in
-            { sfields = fields; sholder = (holder = "1"); sinit }
-        | _ -> failwith "sd") sds in
-      { env; names; fnames }
-  | _ -> failwith "universe"
+              | _ -> failwith "ginit" in
+            { gs_name = str_of_string name; gs_init;
+              gs_fields = List.map (function
+                | L [A "gf"; A nm; t; A tag; A ex; A an] ->
+                    { gf_name = str_of_string nm; gf_type = gotype_of_sx t;
+                      gf_tag = (if tag = "-" then [] else bytes_of_hex tag);
+                      gf_exported = (ex = "1"); gf_anonymous = (an = "1") }
+                | _ -> failwith "gf") fs }
+        | _ -> failwith "gs") l
+    | _ -> [] in
+  (* the environment the judge uses is the one the MODEL's tag parser builds *)
+  let env = build_env gu in
+  let ru = lazy (resolve_universe gu) in
+  let valid = Array.of_list (List.mapi (fun i _ -> lazy (accepted_with (Lazy.force ru) (n_of_int i))) gu) in
+  let invalid = match List.find_opt (function L (A "invalid" :: _) -> true | _ -> false) items with
+    | Some (L (_ :: l)) -> List.map (function A x -> x | _ -> "?") l | _ -> [] in
+  { env; names; fnames; gu; intended; valid; invalid }
 
 (* ------------------------------------------------------------ wire canon *)
 let rec canon_tv (w : tv) : tv =
@@ -373,12 +412,87 @@ let judge_case (u : uni) (case : sx) (obs : sx list) : verdict =
              | DOk _, _ -> fail v "corr-hop" "re-encoding failed in the implementation"
              | _, _ -> ())
         | _ -> fail v "harness" "unparsable observation")
+   | L [A "resolve"; A tname] ->
+       let sid = sid_of u tname in
+       let gs = List.nth u.gu sid in
+       let rec dstr (DT (t, k, v, sidn)) =
+         let sub = function Some d -> dstr d | None -> "?" in
+         match t with
+         | DBool -> "bool" | DI8 -> "i8" | DDouble -> "double" | DI16 -> "i16" | DI32 -> "i32" | DI64 -> "i64"
+         | DString -> "string" | DEnum -> "enum" | DBinary -> "binary"
+         | DStruct -> string_of_str (List.nth u.gu (int_of_n sidn)).gs_name
+         | DMap -> "map<" ^ sub k ^ ":" ^ sub v ^ ">"
+         | DSet -> "set<" ^ sub v ^ ">" | DList -> "list<" ^ sub v ^ ">"
+         | DPointer -> "*" ^ sub v in
+       let model = match resolve_fields gs with
+         | RErr -> None
+         | ROk dfs -> Some (String.concat "" (List.map (fun d ->
+             Printf.sprintf "(f %s %s %d %s)" (string_of_n d.d_id)
+               (match d.d_req with RDefault -> "default" | RRequired -> "required" | ROptional -> "optional")
+               (if d.d_nocopy then 1 else 0) (dstr d.d_type)) dfs)) in
+       let render l = String.concat "" (List.map (function
+         | L [A "f"; A a; A b; A c; A d] -> Printf.sprintf "(f %s %s %s %s)" a b c d
+         | _ -> "?") l) in
+       (match model, obs with
+        | Some m, [L (A "ok" :: l)] -> if render l <> m then fail v "corr-resolve" (Printf.sprintf "schema: model %s impl %s" m (render l))
+        | None, [L (A "err" :: _)] -> ()
+        | Some m, [L (A "err" :: _ :: A msg :: _)] -> fail v "corr-resolve-rejected" ("impl rejects (" ^ string_of_hex msg ^ "), model accepts " ^ m)
+        | None, [L (A "ok" :: l)] -> fail v "corr-resolve-accepted" ("impl accepts an invalid definition: " ^ render l)
+        | _, [L (A "panic" :: A msg :: _)] -> fail v "panic" ("resolver panicked: " ^ string_of_hex msg)
+        | _ -> fail v "harness" "unparsable observation")
+   | L [A "api3"; A tname] ->
+       let sid = sid_of u tname in
+       let okk = Lazy.force u.valid.(sid) in
+       (match obs with
+        | [A s1; A e1; A d1; A s2; A e2; A d2] ->
+            if okk then begin
+              let base x = List.hd (String.split_on_char '+' x) in
+              (* the probe message need not fit the type (required fields): decoding may fail, but not panic *)
+              if List.map base [s1; e1; s2; e2] <> ["ok"; "ok"; "ok"; "ok"] || base d1 <> base d2 || base d1 = "panic" || base d1 = "other" then
+                fail v "prop-valid-rejected" (String.concat " " [s1; e1; d1; s2; e2; d2])
+            end else begin
+              (* EncodedSize: ordinary panic; EncodeObject / DecodeObject: error; nothing written; same on every call *)
+              if s1 <> "panic" || s2 <> "panic" then fail v "prop-invalid-size" (s1 ^ " " ^ s2);
+              if e1 <> "err" || e2 <> "err" then fail v "prop-invalid-enc" (e1 ^ " " ^ e2);
+              if d1 <> "err" || d2 <> "err" then fail v "prop-invalid-dec" (d1 ^ " " ^ d2)
+            end
+        | _ -> fail v "harness" "unparsable observation")
+   | L [A "badarg"; A kind] ->
+       (match obs with
+        | [A sz; A e; A d] ->
+            let want = match kind with
+              | "nilptr" -> ("ok", "ok", "err")       (* a nil *T encodes as an empty struct; decoding into nil is refused *)
+              | _ -> ("panic", "err", "err") in
+            if (sz, e, d) <> want then fail v "prop-badarg" (Printf.sprintf "%s: got %s %s %s" kind sz e d)
+        | _ -> fail v "harness" "unparsable observation")
    | _ -> fail v "harness" "unknown case");
   v
 
 let () =
   let u = load_universe Sys.argv.(1) in
-  if not (env_ok u.env) then prerr_endline "warning: env_ok false";
+  (* C12: the descriptor the model's resolver builds from the tags equals the schema the
+     generator printed the tags from; structs the generator marks invalid must be rejected *)
+  let bad = ref [] in
+  List.iteri (fun i (m, it) ->
+    let name = Hashtbl.fold (fun k v acc -> if v = i then k else acc) u.names "?" in
+    if List.mem name u.invalid then begin
+      if Lazy.force u.valid.(i) then bad := (name ^ ":accepted-by-model") :: !bad
+    end else if m <> it then bad := name :: !bad
+    else if not (Lazy.force u.valid.(i)) then bad := (name ^ ":rejected-by-model") :: !bad) (List.combine u.env u.intended);
+  (match Sys.getenv_opt "JUDGE_DEBUG" with
+   | Some nm ->
+       let i = Hashtbl.find u.names nm in
+       let show (sd : sdesc) =
+         Printf.sprintf "holder=%b init=%s fields=%s" sd.sholder
+           (match sd.sinit with None -> "none" | Some l -> String.concat ";" (List.map (fun (k, v) -> Printf.sprintf "%d:%s" (int_of_nat k) (str_of_val v)) l))
+           (String.concat " " (List.map (fun f -> Printf.sprintf "[%s nc=%b d=%s]" (string_of_n f.fid) f.fnocopy
+              (match f.fdflt with None -> "none" | Some v -> str_of_val v)) sd.sfields)) in
+       prerr_endline ("MODEL    " ^ show (List.nth u.env i));
+       prerr_endline ("INTENDED " ^ show (List.nth u.intended i))
+   | None -> ());
+  if !bad = [] then print_string "UNIVERSE\tok\n"
+  else Printf.printf "UNIVERSE\tMISMATCH\t%s\n" (String.concat "," (List.rev !bad));
+  if not (env_ok u.env) then print_string "UNIVERSE\tENV-NOT-OK\n";
   let ic = open_in_bin Sys.argv.(2) in
   (try
      while true do
